@@ -127,6 +127,11 @@ M = [
     ("C09-environ-not-stored-for-dimension-one", ["C09"], "renormalizer/mps/lib.py",
      "                        domain, mps_conj[siteidx])\n            self.write(domain, siteidx, itensor)",
      "                        domain, mps_conj[siteidx])\n            if mps[siteidx].shape[0] != 1 or mps[siteidx].shape[-1] != 1 or (domain, siteidx) not in self._virtual_disk:\n                self.write(domain, siteidx, itensor)"),
+    # (dropping the UPPER diagonal instead would be an equivalent mutant: numpy's eigh reads the lower triangle only)
+    ("C18-krylov-fallback-forgets-lower-diagonal", ["C18"], "renormalizer/lib/krylov/krylov.py",
+     "h = np.diag(alpha) + np.diag(beta, k=-1) + np.diag(beta, k=1)", "h = np.diag(alpha) + np.diag(beta, k=1)"),
+    ("C18-svd-fallback-full-matrices", ["C18"], "renormalizer/mps/svd_qn.py",
+     'full_matrices=full_matrices and not opt,\n            lapack_driver="gesvd",', 'full_matrices=full_matrices,\n            lapack_driver="gesvd",'),
     ("C15-simplify-sums-abs", ["C15"], "renormalizer/model/op.py", None, None),
     ("C18-svd-qn-block-order", ["C18", "C04"], "renormalizer/mps/svd_qn.py", None, None),
     ("C20-cover-drops-isolated", ["C20"], "renormalizer/lib/bipartite_matching/bipartite_matching.py", None, None),
